@@ -503,6 +503,10 @@ def part_namesake(ctx, shard):
                         ctx.violation(base + f"|mode=raises:{r[1] if len(r) > 1 else ''}", case, "value", str(r[1:])[:100])
                         continue
                     ctx.decided(("namesake", expr, how, dtype, shape, rname))
+                    if rname in ("to", "in_units", "convert_to_units") and abs(float(r[1].units.base_value) - s_tgt) > 1e-12 * abs(s_tgt):
+                        # the numbers may be right, but the unit attached to them is not the target that was asked for
+                        ctx.violation(base + "|mode=result-labelled-with-a-namesake-of-the-target", case, s_tgt, float(r[1].units.base_value))
+                        continue
                     got_si = np.asarray(r[1].d, dtype=float) * s_tgt
                     tol = 16 * (EPS["float32"] if dtype == "float32" else EPS["float64"])
                     if np.any(np.abs(got_si - want_si) > tol * np.abs(want_si)):
